@@ -1,5 +1,7 @@
 import UrcuVerif.Lfq.Thms
 import UrcuVerif.Lfq.Neg
+import UrcuVerif.Lfq.TsoSim
+import UrcuVerif.Lfq.TsoNeg
 /-!
 # C12 — the RCU lock-free queue is a linearizable FIFO (statements and final theorems)
 
@@ -14,7 +16,10 @@ in `Lfq/Neg.lean` (`uaf_reachable_unfixed`, `destroy_eperm_on_empty_reachable_un
 Everything below is proved for ALL reachable states (`Reach c s`, arbitrary `c.n`), no bound.
 Memory model: every shared mutation of this structure is a locked RMW, so an x86-TSO run is an SC
 run of these steps once the private initialisation of a node is folded into the step before its
-publishing CAS (DESIGN §2; argued, not mechanised — listed as trusted in props/c12.py).
+publishing CAS.  This is mechanised in the last section of this file: `Lfq/TsoModel.lean` is the same
+model with per-thread FIFO store buffers for the plain initialising stores, `tso_simulates_sc` shows that
+every TSO run is an SC run with the same answers (flushes are stutters), and `C12_tso_full_holds`
+restates the property on the TSO machine.
 -/
 namespace UrcuVerif.Lfq
 
@@ -276,6 +281,139 @@ theorem C12_full_holds : C12_full := by
     (always_one_node hc r).1, i.no_uaf, fun t l s' p st => (dummy_never_returned hc r st).1,
     fun t p s' o st => dummy_freed_after_gp hc r st, fun tr s' h => (lfq_trace_refines hc r h).1⟩
 
+/-! ## x86-TSO
+
+`Lfq/TsoModel.lean`: the plain stores `node->next = NULL; node->dummy = 0` (`cds_lfq_node_init_rcu`, by the application
+before the enqueue) and `dummy->parent.next = NULL; dummy->parent.dummy = 1` (`make_dummy` in `enqueue_dummy`) go
+through the issuing thread's FIFO store buffer and reach memory at arbitrary later `flush` steps; loads read the own
+buffer first; the five `uatomic_cmpxchg` sites are locked RMWs that need an empty own buffer.  Everything below is for
+ALL reachable states of that machine, any number of threads, any flush schedule. -/
+
+open Tso in
+/-- **tso_simulates_sc**: every reachable state of the TSO machine is, up to the contents of the store buffers, a
+reachable state of the SC model (`Sim` = all thread-local and ghost fields equal; memory equal on every node that is
+not the still-private node of a thread with a non-empty buffer; for that node the SC memory holds the buffered values). -/
+theorem tso_simulates_sc {c : Cfg} (hc : Current c) {ts : TState} (r : TReach { c := c } ts) :
+    ∃ s, Reach c s ∧ Sim ts s := by
+  obtain ⟨N, D, r0, h⟩ := treach_sim hc.1 r
+  exact ⟨_, r0, N, D, rfl, h⟩
+
+open Tso in
+/-- **tso_step_is_sc_step**: every step of the TSO machine is a stutter (a flush: the SC image does not move, nothing
+is returned) or the SAME access of the SC model returning the SAME answer, between the SC images — so every theorem of
+this file about steps and reachable states of the SC model holds for the TSO machine. -/
+theorem tso_step_is_sc_step {c : Cfg} (hc : Current c) {ts ts' : TState} {t : Nat} {l : TLabel} {o : Out}
+    (r : TReach { c := c } ts) (st : tstep { c := c } ts t l = some (ts', o)) :
+    ∃ s s', Reach c s ∧ Sim ts s ∧ Reach c s' ∧ Sim ts' s' ∧
+      ((l = .flush ∧ o = .unit ∧ s' = s) ∨ ∃ l', l = .op l' ∧ step c s t l' = some (s', o)) := by
+  obtain ⟨N, D, N', D', r0, h, r1, h', x⟩ := treach_step hc.1 r st
+  exact ⟨_, _, r0, ⟨N, D, rfl, h⟩, r1, ⟨N', D', rfl, h'⟩, x⟩
+
+open Tso in
+/-- loads on the TSO machine return the logical (SC) value: a pointer a thread holds from `q.head` / `q.tail` never
+designates a node with a pending buffered store of ANOTHER thread, and its own buffer never holds that node either -/
+theorem tso_loads_see_sc_memory {c : Cfg} (hc : Current c) {ts : TState} (r : TReach { c := c } ts) :
+    ∃ s, Reach c s ∧ Sim ts s ∧
+      (∀ t, HoldsHd s t → rdNext ts t (s.hd t) = s.next (s.hd t) ∧ rdDummy ts t (s.hd t) = s.isDummy (s.hd t) ∧
+        ts.s.next (s.hd t) = s.next (s.hd t)) ∧
+      (∀ t, HoldsTl (s.pc t) → ts.s.next (s.tl t) = s.next (s.tl t)) := by
+  obtain ⟨N, D, r0, h⟩ := treach_sim hc.1 r
+  have i := reach_inv hc.1 r0
+  refine ⟨_, r0, ⟨N, D, rfl, h⟩, fun t ht => ?_, fun t ht => ?_⟩
+  · have np : ts.s.life (ts.s.hd t) ≠ .priv := by
+      have := i.hd_live t ht
+      simp only [img] at this
+      rcases this with e | e <;> rw [e] <;> simp
+    exact ⟨(h.rd_np i t np).1, (h.rd_np i t np).2, (h.mem_np i np).1.symm⟩
+  · have np : ts.s.life (ts.s.tl t) ≠ .priv := by
+      have := i.tl_live t ht
+      simp only [img] at this
+      rcases this with e | e <;> rw [e] <;> simp
+    exact (h.mem_np i np).1.symm
+
+open Tso in
+/-- store buffers are tiny and private: a non-empty buffer belongs to a thread about to link its node (`eLd`/`eCas`),
+holds only that node's initialisation, and the node is private (not linked, not removed) -/
+theorem tso_buffers_private {c : Cfg} (hc : Current c) {ts : TState} (r : TReach { c := c } ts) (t : Nat)
+    (hne : ts.buf t ≠ []) :
+    (ts.s.pc t = .eLd ∨ ts.s.pc t = .eCas) ∧ ts.s.life (ts.s.node t) = .priv ∧
+    (∃ b, ts.buf t = [.next (ts.s.node t) 0, .dummy (ts.s.node t) b] ∨ ts.buf t = [.dummy (ts.s.node t) b]) ∧
+    ts.s.node t ∉ ts.s.chain := by
+  obtain ⟨N, D, r0, h⟩ := treach_sim hc.1 r
+  have i := reach_inv hc.1 r0
+  have pv := h.priv i hne
+  refine ⟨h.owns hne, pv, ?_, fun e => ?_⟩
+  · rcases h.buf t with e | ⟨-, ⟨e, -⟩ | ⟨e, -⟩⟩
+    · exact absurd e hne
+    · exact ⟨_, .inl e⟩
+    · exact ⟨_, .inr e⟩
+  · have := (i.inq_iff (ts.s.node t)).mpr (by simpa [img] using e)
+    simp only [img] at this
+    rw [pv] at this; cases this
+
+open Tso in
+/-- **tso_refines_fifo**: on the TSO machine every step of every thread (flushes included) is a step of the sequential
+FIFO on `tabs` = the user nodes reachable from `q.head` with the flags read from MEMORY -/
+theorem tso_refines_fifo {c : Cfg} (hc : Current c) {ts ts' : TState} {t : Nat} {l : TLabel} {o : Out}
+    (r : TReach { c := c } ts) (st : tstep { c := c } ts t l = some (ts', o)) : SpecStep (tabs ts) o (tabs ts') := by
+  obtain ⟨N, D, N', D', r0, h, r1, h', x⟩ := treach_step hc.1 r st
+  rw [← sim_abs h (reach_inv hc.1 r0), ← sim_abs h' (reach_inv hc.1 r1)]
+  rcases x with ⟨-, rfl, e⟩ | ⟨l', -, st'⟩
+  · rw [e]; exact .tau _
+  · exact lfq_refines_fifo hc r0 st'
+
+/-- the FIFO specification returns a node only from the front -/
+theorem spec_node {q q' : List Nat} {p : Nat} (h : SpecStep q (.node p) q') : q = p :: q' := by
+  cases h; rfl
+
+/-- runs of the TSO machine -/
+inductive TSteps (tc : Tso.TCfg) : Tso.TState → List (Nat × Tso.TLabel × Out) → Tso.TState → Prop
+  | nil (ts) : TSteps tc ts [] ts
+  | cons {ts ts1 ts2 t l o tr} : Tso.tstep tc ts t l = some (ts1, o) → TSteps tc ts1 tr ts2 → TSteps tc ts ((t, l, o) :: tr) ts2
+
+open Tso in
+/-- **tso_trace_refines**: every finite run of the TSO machine is, answer for answer, a run of the sequential FIFO -/
+theorem tso_trace_refines {c : Cfg} (hc : Current c) {ts ts' : TState} {tr} (r : TReach { c := c } ts)
+    (h : TSteps { c := c } ts tr ts') : SpecRun (tabs ts) (tr.map (·.2.2)) (tabs ts') ∧ TReach { c := c } ts' := by
+  induction h with
+  | nil ts => exact ⟨.nil _, r⟩
+  | cons st _ ih =>
+    have r1 := TReach.step r st
+    exact ⟨.cons (tso_refines_fifo hc r st) (ih r1).1, (ih r1).2⟩
+
+/-- the statement of C12 on the x86-TSO machine -/
+def C12_tso_full : Prop :=
+  ∀ c, Current c → ∀ ts, Tso.TReach { c := c } ts →
+    (∀ t l ts' o, Tso.tstep { c := c } ts t l = some (ts', o) → SpecStep (Tso.tabs ts) o (Tso.tabs ts')) ∧
+    ts.s.enqd = ts.s.deqd ++ Tso.tabs ts ∧ (Tso.tabs ts).Nodup ∧
+    ts.s.tail ∈ ts.s.chain ∧ ts.s.chain ≠ [] ∧ ts.s.uaf = false ∧
+    (∀ t l ts' p, Tso.tstep { c := c } ts t l = some (ts', .node p) → ts.s.isDummy p = false ∧ (Tso.tabs ts).head? = some p) ∧
+    (∀ t p ts' o, Tso.tstep { c := c } ts t (.op (.reclaim p)) = some (ts', o) →
+      ts.s.life p = .removed ∧ (∀ u, ts.s.pre p u = false) ∧ ∀ u b, ts.s.cs u = some b → ts.s.removedAt p < b) ∧
+    (∀ tr ts', TSteps { c := c } ts tr ts' → SpecRun (Tso.tabs ts) (tr.map (·.2.2)) (Tso.tabs ts'))
+
+open Tso in
+theorem C12_tso_full_holds : C12_tso_full := by
+  intro c hc ts r
+  obtain ⟨N, D, r0, h⟩ := treach_sim hc.1 r
+  have i := reach_inv hc.1 r0
+  have ea := sim_abs h i
+  refine ⟨fun t l ts' o st => tso_refines_fifo hc r st, ?_, ?_, ?_, ?_, ?_, fun t l ts' p st => ?_, fun t p ts' o st => ?_,
+    fun tr ts' hs => (tso_trace_refines hc r hs).1⟩
+  · rw [← ea]; exact i.fifo
+  · rw [← ea]; exact (each_node_dequeued_once hc r0).1
+  · exact i.tail_in
+  · exact (always_one_node hc r0).1
+  · exact i.no_uaf
+  · have e := spec_node (tso_refines_fifo hc r st)
+    have m : p ∈ tabs ts := by rw [e]; simp
+    simp only [tabs, abs, List.mem_filter, Bool.not_eq_eq_eq_not, Bool.not_true] at m
+    exact ⟨m.2, by rw [e]; rfl⟩
+  · obtain ⟨s1, st1, -⟩ := onMem_some (by simpa [tstep] using st)
+    have st2 := step_img_noMem (N := N) (D := D) (by simp [NoMem]) st1
+    have := dummy_freed_after_gp hc r0 st2
+    simpa [img] using this
+
 /-! ### Non-vacuity: concrete runs of the executable model (3 threads) exercising the hypotheses -/
 
 /-- enqueue 2, enqueue 3 (thread 0), dequeue by thread 1: dummy 1 skipped (helping nothing), node 2 returned -/
@@ -297,5 +435,24 @@ and accepted after it has left -/
 example : ((run { n := 2 } init demo).bind fun s => (step { n := 2 } s 1 (.reclaim 1)).map (·.2)) = none := by decide
 example : ((run { n := 2 } init (demo ++ [(1, .casHead), (1, .unlock), (0, .casTailAdv), (0, .unlock)])).bind
     fun s => (step { n := 2 } s 1 (.reclaim 1)).map (·.2)) = some .unit := by decide
+
+/-! non-vacuity on the TSO machine: thread 0's enqueue of node 2 with its initialising stores still buffered when it loads the
+tail; thread 1 meanwhile sees an empty queue (NULL); after the drain and the link CAS thread 1 dequeues node 2 -/
+open Tso in
+def tsoDemo : List (Nat × TLabel) :=
+  [ (0, .op .lock), (0, .op (.enqCall 2)), (0, .op .ldTail),                                    -- buffer of 0: [2->next = 0, 2->dummy = 0]
+    (1, .op .lock), (1, .op .deqCall), (1, .op .ldHead), (1, .op (.ldNext 0)),                   -- NULL: the queue is empty
+    (0, .flush), (0, .flush), (0, .op .casNext),                                                 -- linearisation of the enqueue
+    (1, .op .deqCall), (1, .op .ldHead), (1, .op (.ldNext 0)), (1, .op .ldTailD), (1, .op .casTailD), (1, .op .casHead),  -- dummy 1 skipped, tail helped
+    (1, .op .ldHead), (1, .op (.ldNext 3)), (1, .flush), (1, .flush), (1, .op .ldTail), (1, .op .casNext), (1, .op .casTailAdv),
+    (1, .op .ldNext2), (1, .op .ldTailD) ]
+open Tso in
+example : (trun { c := { n := 2 } } tinit (tsoDemo.take 3)).map (fun ts => ((ts.buf 0).length, tabs ts, ts.s.pc 0)) =
+    some (2, [], .eCas) := by decide
+open Tso in
+example : (trun { c := { n := 2 } } tinit (tsoDemo.take 3)).bind (fun ts => (tstep { c := { n := 2 } } ts 0 (.op .casNext)).map (·.2)) = none := by decide
+open Tso in
+example : ((trun { c := { n := 2 } } tinit tsoDemo).bind fun ts => (tstep { c := { n := 2 } } ts 1 (.op .casHead)).map (fun r => (r.2, tabs r.1))) =
+    some (.node 2, []) := by decide
 
 end UrcuVerif.Lfq
